@@ -6,6 +6,7 @@ Nothing here hard-codes /repo: alembic is whatever `import alembic` gives (VERIF
 """
 from __future__ import annotations
 
+import importlib
 import importlib.machinery
 import os
 import py_compile
@@ -16,6 +17,7 @@ import warnings
 
 from alembic import util as alembic_util
 from alembic.config import Config
+from alembic.script import Script
 from alembic.script import ScriptDirectory
 from alembic.script import base as script_base
 
@@ -35,7 +37,10 @@ SUBDIR_NAMES = ["sub", "deep", "pkg", "zz"]
 # plan generation: a plan is a JSON-able dict, fully determines the scratch tree
 # --------------------------------------------------------------------------------------
 
-def _source(content):
+def _source(content, helper=None):
+    if isinstance(content, dict) and content.get("needs"):
+        # importable only when prepend_sys_path puts <root>/lib on sys.path
+        return "import %s\nrevision = %r\ndown_revision = None\n" % (helper, content["rev"])
     if content == "broken":
         return "raise RuntimeError('broken revision module')\n"
     if content == "noRev":
@@ -202,6 +207,10 @@ class Scratch:
     def __init__(self, plan):
         self.plan = plan
         self.root = os.path.realpath(tempfile.mkdtemp(prefix="c19_"))
+        # the scratch root is itself an importable package (unique name) so that locations can be
+        # written as package resources "<token>:va"; `helper` is the module prepend_sys_path makes importable
+        self.token = os.path.basename(self.root)
+        self.helper = "h_" + self.token
         self.content = {}  # realpath -> content (what importing the file yields)
         build = os.path.join(self.root, "_build")
         os.makedirs(build)
@@ -212,19 +221,24 @@ class Scratch:
             for f in plan["files"]:
                 dest = os.path.join(self.root, f["path"])
                 os.makedirs(os.path.dirname(dest), exist_ok=True)
-                if f["kind"] == "plain":
+                if f["kind"] == "helper":
+                    dest = os.path.join(os.path.dirname(dest), self.helper + ".py")
+                    with open(dest, "w") as fh:
+                        fh.write("x = 1\n")
+                    self.content[dest] = "broken"
+                elif f["kind"] == "plain":
                     with open(dest, "w") as fh:
                         fh.write("not python {{{\n")
                     self.content[dest] = "broken"
                 elif f["kind"] == "src":
                     with open(dest, "w") as fh:
-                        fh.write(_source(f["content"]))
+                        fh.write(_source(f["content"], self.helper))
                     self.content[dest] = f["content"]
                 else:
                     n += 1
                     src = os.path.join(build, "m%d.py" % n)
                     with open(src, "w") as fh:
-                        fh.write(_source(f["content"]))
+                        fh.write(_source(f["content"], self.helper))
                     # CHECKED_HASH: a source file next to a cache entry compiled from *different*
                     # text is never shadowed by it (timestamp pycs could validate by accident)
                     py_compile.compile(src, cfile=dest, doraise=True,
@@ -237,10 +251,13 @@ class Scratch:
                 p = os.path.join(self.root, l["path"])
                 if not os.path.lexists(p):
                     os.symlink(os.path.join(self.root, l["target"]), p)
+            with open(os.path.join(self.root, "__init__.py"), "w") as fh:
+                fh.write("")
         except BaseException:
             self.close()
             raise
         shutil.rmtree(build)
+        importlib.invalidate_caches()
 
     def close(self):
         shutil.rmtree(self.root, ignore_errors=True)
@@ -318,15 +335,64 @@ class Scratch:
 # the implementation
 # --------------------------------------------------------------------------------------
 
-def make_config(script_location, version_locations=None, sep=None, recursive=False, sourceless=False):
-    cfg = Config()
-    cfg.set_main_option("script_location", script_location)
-    if version_locations is not None:
-        cfg.set_main_option("version_locations", version_locations)
+def location_strings(sc, plan, st):
+    """how each configured location is written in the option string, and the absolute path it means"""
+    out = []
+    for p in plan["locations"]:
+        absp = os.path.join(sc.root, p)
+        if st.get("resource") and st.get("sep") not in (":", "os"):
+            out.append(("%s:%s" % (sc.token, p), absp))       # package resource, coerce_resource_to_filename
+        elif st.get("relative"):
+            out.append((p + ("/" if st.get("slash") else ""), absp))   # relative to the working directory (run_impl chdirs to the root)
+        elif st.get("delivery") == "ini" and st.get("here"):
+            out.append(("%(here)s/" + p + ("/" if st.get("slash") else ""), absp))  # ConfigParser interpolation of the ini directory
+        else:
+            out.append((absp + ("/" if st.get("slash") else ""), absp))
+    return out
+
+
+def make_config(sc, plan, st, joined):
+    """Builds the Config the way a user would: programmatically (`Config()` + set_main_option) or from a real
+    alembic.ini (optionally another section, %(here)s, multi-line values).  `joined` = the version_locations
+    option string (None = option absent)."""
+    sep = st.get("sep") if joined is not None else None
+    script_location = os.path.join(sc.root, "scripts")
+    if st.get("script_resource"):
+        script_location = "%s:scripts" % sc.token
+    elif st.get("relative"):
+        script_location = "scripts"
+    opts = [("script_location", script_location)]
+    if joined is not None:
+        opts.append(("version_locations", joined))
+    elif st.get("empty_option"):
+        opts.append(("version_locations", ""))  # falsy option value = option absent
     if sep is not None:
-        cfg.set_main_option("version_path_separator", sep)
-    cfg.set_main_option("recursive_version_locations", "true" if recursive else "false")
-    cfg.set_main_option("sourceless", "true" if sourceless else "false")
+        opts.append(("version_path_separator", sep))
+    # a false setting is either spelled "false" or simply absent
+    if st["recursive"] or not st.get("omit_false"):
+        opts.append(("recursive_version_locations", "true" if st["recursive"] else "false"))
+    if st["sourceless"] or not st.get("omit_false"):
+        opts.append(("sourceless", "true" if st["sourceless"] else "false"))
+    if st.get("extras"):
+        opts.append(("truncate_slug_length", "20"))
+    if st.get("prepend"):
+        opts.append(("prepend_sys_path", st["prepend"].replace("{root}", sc.root)))
+    if st.get("delivery") == "ini":
+        section = st.get("section") or "alembic"
+        if st.get("here") and not st.get("script_resource") and not st.get("relative"):
+            opts[0] = ("script_location", "%(here)s/scripts")
+        lines = ["[%s]" % section]
+        for k, v in opts:
+            lines.append("%s = %s" % (k, v.replace("\n", "\n    ")))
+        if st.get("extras"):
+            lines += ["", "[post_write_hooks]", "hooks = black", "black.type = console_scripts"]
+        ini = os.path.join(sc.root, "alembic.ini")
+        with open(ini, "w") as fh:
+            fh.write("\n".join(lines) + "\n")
+        return Config(ini, ini_section=section)
+    cfg = Config()
+    for k, v in opts:
+        cfg.set_main_option(k, v)
     return cfg
 
 
@@ -338,14 +404,44 @@ def exc_kind(e):
     return "loadFailed"
 
 
-def run_impl(scratch, cfg):
-    """Runs the real ScriptDirectory; returns the observable outcome in the model's vocabulary."""
+def _purge_modules(scratch):
+    for k in [k for k in sys.modules if k == scratch.token or k.startswith(scratch.token + ".") or k == scratch.helper]:
+        del sys.modules[k]
+
+
+def run_impl(scratch, cfg, st=None):
+    """Runs the real ScriptDirectory; returns the observable outcome in the model's vocabulary.
+    sys.path / sys.modules are restored afterwards (from_config prepends to sys.path for good)."""
+    st = st or {}
+    saved = list(sys.path)
+    sys.path.insert(0, os.path.dirname(scratch.root))  # makes the scratch package importable (resource locations)
+    base_path = list(sys.path)
+    cwd = os.getcwd()
+    try:
+        if st.get("relative"):
+            os.chdir(scratch.root)
+        return _run_impl(scratch, cfg, st, base_path)
+    finally:
+        os.chdir(cwd)
+        sys.path[:] = saved
+        _purge_modules(scratch)
+
+
+def _run_impl(scratch, cfg, st, base_path):
     out = {}
     with warnings.catch_warnings(record=True) as w:
         warnings.simplefilter("always")
-        sd = ScriptDirectory.from_config(cfg)
-        out["version_locations"] = None if sd.version_locations is None else list(sd.version_locations)
-        out["resolved"] = list(sd._version_locations)
+        try:
+            out["vl_option"] = cfg.get_main_option("version_locations")
+            out["prepend_option"] = cfg.get_main_option("prepend_sys_path")
+            sd = ScriptDirectory.from_config(cfg)
+        except Exception as e:
+            out["config_err"] = "%s: %s" % (type(e).__name__, str(e)[:200])
+            return out
+        out["sys_path_new"] = list(sys.path[: len(sys.path) - len(base_path)]) if sys.path[len(sys.path) - len(base_path):] == base_path else None
+        out["version_locations"] = None if sd.version_locations is None else [str(x) for x in sd.version_locations]
+        out["resolved"] = [str(x) for x in sd._version_locations]
+        out["truncate_slug_length"] = sd.truncate_slug_length
         captured = []
         orig = sd.revision_map._generator
 
@@ -355,6 +451,16 @@ def run_impl(scratch, cfg):
                 yield s
 
         sd.revision_map._generator = gen
+        if st.get("from_path"):
+            # Script._from_path on every regular file of the scratch tree (what generate_revision uses to re-read a file)
+            res = []
+            for n in scratch.nodes:
+                try:
+                    sc_ = Script._from_path(sd, os.path.join(scratch.root, n["path"]))
+                    res.append(None if sc_ is None else ["ok", sc_.revision])
+                except Exception as e:
+                    res.append(["err", exc_kind(e)])
+            out["from_path"] = res
         try:
             keys = [k for k in sd.revision_map._revision_map.keys() if isinstance(k, str)]
         except Exception as e:  # a loud failure: the whole history refuses to load
@@ -387,5 +493,6 @@ REGEXES = {
     "sourceless": script_base._sourceless_rev_file,
     "source": script_base._only_source_rev_file,
     "legacy": script_base._legacy_rev,
+    "prepend": script_base._split_on_space_comma_colon,
 }
 
